@@ -82,7 +82,14 @@ def sym_wg(it, with_nwin=False):
     ns, nswin, overlap = z3.Ints("ns nswin overlap")
     for c in pre(ns, nswin, overlap):
         it.ctx.assume(c)
-    obj = SObj(WG, ns=SV(ns), nswin=SV(nswin), overlap=SV(overlap), iw=None)
+    # the object as the class itself sets it up (every attribute __init__ defines exists, whatever a later version adds), then the three
+    # parameters as plain symbols again (int(ns) of an integer is ns)
+    obj = SObj(WG)
+    try:
+        run_function(it, WG.__init__, [obj, SV(ns), SV(nswin), SV(overlap)])
+    except I.Unsupported:
+        obj = SObj(WG)
+    obj.attrs.update(dict(ns=SV(ns), nswin=SV(nswin), overlap=SV(overlap), iw=None))
     if with_nwin:
         obj.attrs["nwin"] = SV(z3.Int("nwin"))
     return obj, ns, nswin, overlap
@@ -323,6 +330,31 @@ def h_slice(H):
         it.ctx.oblige("tscale.centre", A.forall([j], lambda: z3.Implies(z3.And(j >= 0, j < sit.length),
                                                                       r.read((j,)) == (z3.ToReal(Yf(j)) + z3.ToReal(Yl(j)) - 1) / (2 * fs))))
     S.explore(body_tscale)
+
+    # the time scale asked for again on the same object (another rate, or the same): a function of (ns, nswin, overlap, fs) only, and a result
+    # handed out earlier is not changed by a later call
+    S3 = H.session("tscale.again", contracts={FIRSTLAST: firstlast_summary})
+
+    def body_again(it):
+        ns, nswin, overlap = z3.Ints("ns nswin overlap")
+        for c_ in pre(ns, nswin, overlap):
+            it.ctx.assume(c_)
+        obj = SObj(WG)
+        run_function(it, WG.__init__, [obj, SV(ns), SV(nswin), SV(overlap)])        # every attribute the class itself sets up
+        fs1, fs2 = z3.Reals("fs1 fs2")
+        it.ctx.assume(z3.And(fs1 > 0, fs2 > 0))
+        r1 = run_function(it, WG.tscale, [obj, SV(fs1)])
+        first = r1.snapshot()
+        n1 = A.T(r1.shape[0])
+        r2 = run_function(it, WG.tscale, [obj, SV(fs2)])
+        sit = it.last_firstlast
+        Yf, Yl = sit.Y
+        j = z3.Int("j")
+        it.ctx.oblige("tscale.again.centre", z3.And(A.T(r2.shape[0]) == sit.length, A.forall([j], lambda: z3.Implies(z3.And(j >= 0, j < sit.length),
+                      r2.read((j,)) == (z3.ToReal(Yf(j)) + z3.ToReal(Yl(j)) - 1) / (2 * fs2)))), "post", "the second call gives each window's centre at ITS sampling rate")
+        it.ctx.oblige("tscale.again.first_result_kept", z3.And(z3.BoolVal(not A.shares_memory(r1, r2)), A.forall([j], lambda: z3.Implies(z3.And(j >= 0, j < n1), r1.read((j,)) == first((j,))))), "post",
+                      "the time scale returned by the first call is not modified by the second", assume=False)
+    S3.explore(body_again)
 
 
 # ----------------------------------------------------------------------------- firstlast_splicing
